@@ -34,7 +34,10 @@ type Expect struct {
 	CondOK   bool
 }
 
-func isStreamLevel(t STok) bool {
+func isStreamLevel(t STok, ws bool) bool {
+	if ws && t.K == 1 && t.Space == wsNS {
+		return true
+	}
 	return t.K == 4 || (t.K == 1 && t.Space == stream.NS) || (t.K == 2 && t.Space == stream.NS)
 }
 
@@ -48,7 +51,7 @@ func isSpace(s string) bool {
 }
 
 // Walk is the reference reading of a tokenised script.
-func Walk(toks []STok) Expect {
+func Walk(toks []STok, ws bool) Expect {
 	var e Expect
 	i := 0
 	for i < len(toks) {
@@ -66,6 +69,14 @@ func Walk(toks []STok) Expect {
 		case t.K == 2:
 			// the tokenizer only lets the stream's own end tag through here
 			e.Terminal = "close"
+			return e
+		case t.K == 1 && ws && t.Space == wsNS:
+			// the peer's <close/> ends a WebSocket stream; any other framing element is a restart
+			if t.Local == "close" {
+				e.Terminal = "close"
+			} else {
+				e.Terminal = "restart"
+			}
 			return e
 		case t.K == 1 && t.Space == stream.NS:
 			switch t.Local {
@@ -107,7 +118,7 @@ func Walk(toks []STok) Expect {
 			closed := false
 			for ; j < len(toks); j++ {
 				u := toks[j]
-				if el.DirtyAt < 0 && isStreamLevel(u) {
+				if el.DirtyAt < 0 && isStreamLevel(u, ws) {
 					el.DirtyAt = len(el.Body)
 				}
 				el.Body = append(el.Body, u)
@@ -203,7 +214,7 @@ func CheckC08(sp Spec, o Obs) []Finding {
 		add("serve/hang", "Serve did not return")
 		return fs
 	}
-	exp := Walk(Tokenize([]byte(sp.Script), sp.NS))
+	exp := sp.Expected()
 	// Responses to outstanding requests of the session go to the waiting call,
 	// not to the handler: they are taken out of the expectation. One that holds a
 	// stream-level construct (or is cut short) must end the session there.
@@ -260,7 +271,7 @@ func CheckC08(sp Spec, o Obs) []Finding {
 		// (2) the view is the element and nothing else
 		n, ended := 0, false
 		for k, r := range v.Seen {
-			if r.Tok != nil && isStreamLevel(*r.Tok) {
+			if r.Tok != nil && isStreamLevel(*r.Tok, sp.WS) {
 				add("serve/stream-level-delivered", "invocation %d was given stream-level token %+v", j, *r.Tok)
 			}
 			if ended {
@@ -351,6 +362,10 @@ func CheckC08(sp Spec, o Obs) []Finding {
 		return fs
 	}
 	switch exp.Terminal {
+	case "eof":
+		// a WebSocket connection that ends between two elements without <close/>:
+		// the tokenizer reports a plain EOF; nothing is required of Serve's result
+		return fs
 	case "close":
 		if o.Ret.Code != 0 {
 			add("serve/close-returns-error", "the peer closed the stream, Serve returned %v", o.Ret)
@@ -472,7 +487,7 @@ func DivertedDirty(sp Spec) bool {
 	if len(sp.Pend) == 0 {
 		return false
 	}
-	exp := Walk(Tokenize([]byte(sp.Script), sp.NS))
+	exp := sp.Expected()
 	for i, f := range ExpectedFates(sp, exp) {
 		if f.Div && (exp.Elems[i].DirtyAt >= 0 || exp.Elems[i].Truncated) {
 			return true
@@ -500,7 +515,7 @@ func CheckC07(sp Spec, o Obs) []Finding {
 			return fs // the handler itself broke the output; nothing to say
 		}
 	}
-	exp := Walk(Tokenize([]byte(sp.Script), sp.NS))
+	exp := sp.Expected()
 	// Outstanding requests: a waiter is only ever handed a response; every other
 	// element, a get/set IQ with a colliding id included, goes to the handler.
 	for _, d := range o.Divs {
@@ -582,6 +597,10 @@ func CheckC07(sp Spec, o Obs) []Finding {
 			continue
 		}
 		seg, _, _, bad := ParseWire([]byte(o.Out[v.OutOff:end]), sp.NS)
+		if sp.WS { // the session's own <close/> (and a stream error before it) is not output of the invocation
+			seg, _ = stripWSClose(seg)
+			seg, _ = stripStreamError(seg)
+		}
 		if bad {
 			add("serve/output-malformed", "output of invocation %d is not well-formed: %q", j, o.Out[v.OutOff:end])
 			continue
